@@ -9,7 +9,7 @@
 (*                 up front: the full finite product.                                           *)
 (* Label ids stand for the concrete labels of Conc (resolved through the real label table).    *)
 EXTENDS Encoding, TLC, Json
-CONSTANTS KnownDefects, Mode, Labels, DeclLabels, Forms, BomKinds, MaxWin, MaxDecl, Export, CheckProperty
+CONSTANTS KnownDefects, Mode, Labels, DeclLabels, Forms, BomKinds, MaxWin, MaxDecl, Edge, Export, CheckProperty
 
 D == KnownDefects
 Conc(l) == CASE l = "A" -> <<107, 111, 105, 56, 45, 114>>                     \* koi8-r
@@ -37,8 +37,10 @@ AbsPrescan(ds, n, DD) ==
     THEN MapMeta(DeclEnc(ds[CHOOSE k \in 1..n : DeclEnc(ds[k]) # "none" /\ \A j \in 1..(k - 1) : DeclEnc(ds[j]) = "none"]), DD)
     ELSE "none"
 
-VARIABLES bomk, args, decls, nwin, st, i, init, log
-vars == <<bomk, args, decls, nwin, st, i, init, log>>
+\* edge: the document is such that the first chunk of each pass ends in a character that is held back (Edge: the
+\* values explored; the harness builds a document with a CR at the real chunk boundary of the implementation)
+VARIABLES bomk, args, decls, nwin, st, i, init, log, edge
+vars == <<bomk, args, decls, nwin, st, i, init, log, edge>>
 
 Src(b, a, ds, n, DD) ==
     [bom |-> [bom |-> IF b = "unset" THEN "none" ELSE b, seek |-> BomLen(b)],
@@ -49,7 +51,7 @@ Src(b, a, ds, n, DD) ==
 Unset == [a \in ArgNames |-> "unset"]
 WinSeqs == UNION {[1..k -> Decls] : k \in 0..MaxWin}
 Init ==
-    /\ st = EncInit /\ i = 0 /\ init = EncInit /\ log = <<>>
+    /\ st = EncInit /\ i = 0 /\ init = EncInit /\ log = <<>> /\ edge \in Edge
     /\ IF Mode = "product"
        THEN /\ bomk \in BomKinds /\ args \in [ArgNames -> Labels]
             /\ decls \in WinSeqs /\ nwin = Len(decls)
@@ -60,7 +62,7 @@ Chain1(b2, a2, ds2, n2) ==
     LET s2 == EncStep(st, Src(b2, a2, ds2, n2, D), D) IN
     /\ bomk' = b2 /\ args' = a2 /\ decls' = ds2 /\ nwin' = n2 /\ st' = s2
     /\ init' = IF s2.pc = "parsing" THEN s2 ELSE init
-    /\ UNCHANGED <<i, log>>
+    /\ UNCHANGED <<i, log, edge>>
 StepChain ==
     \/ st.pc = "bom" /\ \E b \in (IF Mode = "product" THEN {bomk} ELSE BomKinds) : Chain1(b, args, decls, nwin)
     \/ st.pc \in {"override", "transport", "parent", "likely", "default"} /\
@@ -73,17 +75,21 @@ Meet(ds2) ==
     LET d == ds2[i + 1]
         s2 == MetaTag(st, AttrsOf(d), D)
     IN  /\ decls' = ds2 /\ st' = s2 /\ i' = i + 1
-        /\ log' = Append(log, [be |-> st.enc, bc |-> st.conf, d |-> d, e |-> s2.enc, c |-> s2.conf, r |-> s2.pc = "restart"])
-        /\ UNCHANGED <<bomk, args, nwin, init>>
+        /\ log' = Append(log, [be |-> st.enc, bc |-> st.conf, d |-> d, e |-> s2.enc, c |-> s2.conf, r |-> s2.pc = "restart",
+                                hb |-> st.held, ha |-> s2.held])
+        /\ UNCHANGED <<bomk, args, nwin, init, edge>>
+\* the first chunk of a pass is read before the first token
+StepChunk == st.pc = "parsing" /\ i = 0 /\ st.held # edge /\ st' = ChunkRead(st, edge)
+             /\ UNCHANGED <<bomk, args, decls, nwin, i, init, log, edge>>
 StepParse ==
-    /\ st.pc = "parsing"
+    /\ st.pc = "parsing" /\ (i = 0 => st.held = edge)
     /\ \/ i < Len(decls) /\ Meet(decls)
        \/ /\ Mode = "lazy" /\ i = Len(decls) /\ st.restarts = 0
           /\ Len(decls) < (IF init.conf = "certain" THEN 1 ELSE MaxDecl)      \* one declaration is enough to see that certain ignores it
           /\ \E d \in Decls : Meet(Append(decls, d))
-       \/ i = Len(decls) /\ st' = [st EXCEPT !.pc = "done"] /\ UNCHANGED <<bomk, args, decls, nwin, i, init, log>>
-StepRestart == st.pc = "restart" /\ st' = Restarted(st) /\ i' = 0 /\ UNCHANGED <<bomk, args, decls, nwin, init, log>>
-Next == StepChain \/ StepParse \/ StepRestart
+       \/ i = Len(decls) /\ st' = [st EXCEPT !.pc = "done"] /\ UNCHANGED <<bomk, args, decls, nwin, i, init, log, edge>>
+StepRestart == st.pc = "restart" /\ st' = Restarted(st) /\ i' = 0 /\ UNCHANGED <<bomk, args, decls, nwin, init, log, edge>>
+Next == StepChain \/ StepChunk \/ StepParse \/ StepRestart
 Spec == Init /\ [][Next]_vars
 
 -----------------------------------------------------------------------------
@@ -106,6 +112,8 @@ ThmLateMeta == (CheckProperty /\ log # <<>>) =>
     IN  LateMetaEffect(b, lab, [enc |-> ev.e, conf |-> ev.c, with |-> ev.e, pc |-> IF ev.r THEN "restart" ELSE "parsing"])
         /\ ((ev.bc = "tentative" /\ GetEncoding(lab) = "none") => (ev.e = ev.be /\ ev.c = "tentative" /\ ~ev.r))
 ThmRestartOnce == st.restarts <= 1 /\ (st.restarts = 1 => st.conf = "certain")
+\* 3a. the restarted pass starts from byte 0 with nothing carried over from the abandoned pass
+ThmRestartFresh == RestartIsFresh(st)
 \* 3b. every declaration of the document is met during tree construction, so a parse that ends with a tentative
 \*     encoding has met no declaration that names an encoding (UTF-16 counts)
 ThmNoDeclLeft == (CheckProperty /\ st.pc = "done" /\ st.conf = "tentative") =>
@@ -115,5 +123,5 @@ ThmCertainStable == [][CertainStable(st, st')]_vars
 ThmExport == (Export /\ st.pc = "done") =>
     PrintT(ToJson([bom |-> bomk, args |-> args, decls |-> decls, nwin |-> nwin,
                    e0 |-> init.enc, c0 |-> init.conf, from0 |-> init.from,
-                   e |-> st.enc, c |-> st.conf, restarts |-> st.restarts, from |-> st.from, log |-> log]))
+                   e |-> st.enc, c |-> st.conf, restarts |-> st.restarts, from |-> st.from, log |-> log, edge |-> edge]))
 =============================================================================
